@@ -947,7 +947,9 @@ class EventGenerator:
                 rolling = False
                 for var in sequence:
                     values = getattr(obj, var.name)
-                    if collections.is_array(values):
+                    # A single tokens value is one occurrence, not one per token
+                    is_list = var.list_element or not var.tokens
+                    if is_list and collections.is_array(values):
                         if j < len(values):
                             rolling = True
                             value = values[j]
